@@ -451,7 +451,7 @@ def _main(prop, pid, tier, seed, replay, t0):
     # (numpy's _ArrayMemoryError, a refusal) instead of filling the machine's memory
     try:
         import resource
-        lim = int(os.environ.get("VERIF_AS_LIMIT_GB", "24")) << 30
+        lim = int(os.environ.get("VERIF_AS_LIMIT_GB", "6" if tier == "quick" else "16")) << 30
         resource.setrlimit(resource.RLIMIT_AS, (lim, lim))
     except Exception:
         pass
@@ -492,7 +492,20 @@ def _main(prop, pid, tier, seed, replay, t0):
         if r is not None:
             reqs.append(r)
             idx.append(i)
-    resps = run_driver(reqs)
+    changed = (not st.ok) or bool(st.kernels_changed)
+    try:
+        resps = run_driver(reqs, timeout=300 if changed else 1800)
+    except (InfraError, subprocess.TimeoutExpired) as e:
+        if not changed:
+            raise InfraError(f"model driver failed although no kernel changed: {e}")
+        # the model calls kernels generated from the CHANGED source: with an absurd length or index it can exhaust memory or time.
+        # That is one more obligation that no longer checks, not a defect of the harness; the implementation is still compared
+        # with the oracle on every case
+        st.ok = False
+        st.broken.append({"kind": "model-run", "detail": "the executable model (which calls the kernels generated from the current source) "
+                          "did not complete: " + str(e)[-500:]})
+        resps = []
+        idx = []
     for i, resp in zip(idx, resps):
         c = cases[i]
         c.L, c.S = prop.decode_lean(c.payload, resp)
